@@ -31,7 +31,7 @@ ASSUMPTIONS = ["a 'constant' input is an array of one repeated value (zero varia
 PROBES = ["refresh_skipped", "refresh_taken_later_call", "zero_variance_input", "custom_std_used",
           "ncalc_shorter_than_input", "clipped_values", "two_d_input", "period_nonpositive"]
 
-KINDS = ["gauss", "gauss", "gauss", "const", "two", "ramp", "huge", "tiny", "len1", "2d"]
+KINDS = ["gauss", "gauss", "gauss", "const", "two", "ramp", "huge", "tiny", "len1", "2d", "pedestal"]
 
 
 def make_input(spec):
@@ -51,6 +51,9 @@ def make_input(spec):
         return 1e-100 * (spec["mu"] + spec["sd"] * rng.standard_normal(n))
     if k == "len1":
         return np.array([spec["mu"]])
+    if k == "pedestal":
+        # small, well defined variation on a huge DC offset (a few units in the last place of the mean)
+        return 2.0 ** 50 + 0.25 * rng.integers(-3, 4, size=n)
     if k == "2d":
         return spec["mu"] + spec["sd"] * rng.standard_normal((max(n // 4, 1), 4))
     raise ValueError(k)
